@@ -34,6 +34,8 @@ pub mod c09;
 pub mod c16;
 pub mod c15;
 pub mod c14;
+#[cfg(feature = "full")]
+pub mod c20;
 pub mod c17;
 
 use report::{Args, Report};
@@ -57,6 +59,8 @@ pub fn dispatch(cmd: &str, args: &Args, rep: &mut Report) -> bool {
         "C16" => c16::run(args, rep),
         "C15" => c15::run(args, rep),
         "C14" => c14::run(args, rep),
+        #[cfg(feature = "full")]
+        "C20" => c20::run(args, rep),
         "C17" => c17::run(args, rep),
         "try" => trycmd(args),
         "probe" => probecmd(args),
